@@ -111,7 +111,7 @@ REL_SOURCES = tuple(dict.fromkeys(t[1] for t in TARGETS))
 REL_SOURCE = "agilerl/algorithms/{dqn,cqn,dqn_rainbow,ddpg,td3,ppo,ippo,maddpg,matd3}.py + agilerl/networks/actors.py"
 SHA_PREFIX = "-- sha256(source) = "
 
-ID_METHODS = {"to", "cpu", "numpy", "detach", "float", "double", "long", "clone", "contiguous"}
+ID_METHODS = {"to", "cpu", "numpy", "detach", "float", "double", "long", "int", "clone", "contiguous"}
 ID_FUNCS = {("torch", "tensor"), ("torch", "as_tensor"), ("torch", "from_numpy"), ("np", "array"), ("np", "stack"),
             ("np", "asarray")}
 EFFECT_FREE = {"eval", "train"}
